@@ -327,4 +327,22 @@ def rule_r7_plain(ctx, prog, rule="R7"):
                         ok = False
                         detail = "the returned value is not the index variable updated with the running extremum"
             ctx.ob(rule, "%s/index-value-pairing" % name, ok, root.where(), detail, what="index not paired with the extremum")
+            rule_initial_index(ctx, prog, root, name, rule)
     return len(PLAIN)
+
+
+def rule_initial_index(ctx, prog, root, name, rule="R7"):
+    """the running index starts at the logical index of `first()`: D::zeros(self.ndim()) – for every dimensionality incl. IxDyn"""
+    ok = False
+    detail = "no initial index found"
+    for b in [root] + prog.closures_of(root):
+        for bb, t in b.calls():
+            if callee_name(t) == "into_pattern":
+                a = strip(b.call_arg_exprs(bb)[0])
+                if isinstance(a, tuple) and a[0] == "call" and a[1] == "zeros" and a[3]:
+                    n = strip(a[3][0])
+                    ok = isinstance(n, tuple) and n[0] == "call" and n[1] == "ndim" and strip(n[3][0]) == ("param", 1, "self")
+                    detail = "initial index = D::zeros(self.ndim()).into_pattern()" if ok else "initial index is zeros(%s)" % fmt(n)
+                else:
+                    detail = "initial index is `%s`: not the all-zero index of the array's own dimensionality (wrong for IxDyn)" % fmt(a)[:80]
+    ctx.ob(rule, "%s/initial-index" % name, ok, root.where(), detail, what="initial index not the logical first index for every dimensionality")
